@@ -117,6 +117,16 @@ def run(ctx):
         c = rng.random()
         n = rng.randint(-10, 10) if c < 0.3 else rng.randint(-2**53, 2**53) if c < 0.6 else rng.randint(-2**63, 2**63 - 1)
         reqs.append({"op": "f64", "fn": fn, "x": f2b(x), "y": f2b(y), "n": n})
+    # dimensions beyond the usual ones, around multiples of 16 (D is an unbounded const generic; blocked or unrolled loops have their seams there)
+    for D in (13, 16, 17, 32, 48):
+        for fn in ["add", "sub", "muls", "mulr", "addassign", "dot", "squared", "new", "new_from_num", "roundtrip"]:
+            for _ in range(4 if ctx.quick else 30):
+                a = [rng.uniform(-10, 10) for _ in range(D)]; b = [rng.uniform(-10, 10) for _ in range(D)]
+                reqs.append({"op": "vec", "fn": fn, "D": D, "a": [f2b(v) for v in a], "b": [f2b(v) for v in b], "s": f2b(rnd(rng))})
+    # inv at every power of two from the smallest subnormal to 2^1023, both signs (1/x is exact there, or a subnormal/overflow)
+    for k in list(range(-1074, -1015)) + list(range(-8, 9)) + list(range(1015, 1024)):
+        for sg in (1.0, -1.0):
+            reqs.append({"op": "f64", "fn": "inv", "x": f2b(sg * math.ldexp(1.0, k)), "y": f2b(0.0), "n": 0})
     # vectors whose components are all equal (zero shifts, unit vectors, ...): every partial sum is still rounded in turn
     for D in range(1, 9):
         for fn in ["squared", "dot", "add", "muls"]:
@@ -161,6 +171,13 @@ def run(ctx):
         for fn in ("add", "sub", "muls", "mulr", "addassign", "dot", "squared", "new"):
             tg.append({"op": "vec_tag", "fn": fn, "D": D, "a": [f2b(rng.uniform(-2, 2)) for _ in range(D)], "b": [f2b(rng.uniform(-2, 2)) for _ in range(D)],
                        "s": f2b(1.5)})
+    tg2 = [{"op": "vec_tag", "fn": "new_i", "D": D, "a": [f2b(rng.uniform(-2, 2)) for _ in range(D)], "b": [f2b(0.0)] * D, "s": f2b(0.0)} for D in range(1, 7)]
+    for r, a in zip(tg2, run_harness(tg2)):
+        ctx.case(r, nontrivial=True); ctx.count("vec.new_componentwise")
+        exp = [100 + i for i in range(r["D"])]
+        if a.get("tags") != exp or any(b2f(v) != 0.0 for v in a.get("r", [1])):
+            ctx.violation(f"Vector::new (D={r['D']}): component i of the result is not zero() of component i of self (a scalar whose zero() remembers "
+                          f"where it came from shows tags {a.get('tags')}, expected {exp})", r, expected=exp, observed=a)
     for r, a in zip(tg, run_harness(tg)):
         ctx.case(r, nontrivial=True); ctx.count("vec.operand_roles")
         if "tags" not in a or any(t != 1 for t in a["tags"]):
